@@ -114,5 +114,8 @@ mod verif_kani_scanner {
         assert!(c.is_ascii_lowercase() == (97 <= c && c <= 122));
         assert!(c.is_ascii_uppercase() == (65 <= c && c <= 90));
         assert!(c.is_ascii_hexdigit() == ((48 <= c && c <= 57) || (65 <= c && c <= 70) || (97 <= c && c <= 102)));
+        assert!(c.is_ascii_whitespace() == (c == 32 || c == 9 || c == 10 || c == 12 || c == 13));
+        assert!(c.is_ascii_alphabetic() == ((65 <= c && c <= 90) || (97 <= c && c <= 122)));
+        assert!(c.is_ascii_alphanumeric() == ((48 <= c && c <= 57) || (65 <= c && c <= 90) || (97 <= c && c <= 122)));
     }
 }
